@@ -142,7 +142,7 @@ impl<'a, E: Elem> GNew<'a, E> {
             let native: [E; C] = x.into_array();
             let back: GenericArray<E, N> = GenericArray::from_array(native);
             Arr::from(back)
-        }));
+        }); other => Ok(other));
         match r {
             Ok(arr) => {
                 cx.cov(&[OpKind::NativeRoundtrip as u64, n as u64]);
